@@ -1309,7 +1309,7 @@ def run_sem(chk, replay=None):
         # the names a handler sees are those of the body it belongs to — its inputs, 此, the methods of its module — wherever
         # the exception came from (a built-in method, a callee at any depth, a constructor)
         from props import c09
-        extra = [(c09.handler_program(chk.rng), None, "handler-sees-its-body") for _ in range(25 if chk.tier == "quick" else 300)]
+        extra += [(c09.handler_program(chk.rng), None, "handler-sees-its-body") for _ in range(25 if chk.tier == "quick" else 300)]
     semprop.run_property(chk, "C06", "c06s", SEM_PROFILES, 90, 1200, replay=replay, extra_programs=extra, what=SEM_WHAT)
 
 
